@@ -584,6 +584,24 @@ pub async fn model_compare(w: &World, line: &str, undo: &Undo, model: &mut Model
                 Ok(_) => "ok".to_string(),
                 Err(e) => classify(&e).to_string(),
             };
+            // copy_opts FROM this key: the same verification, then the payload the document names must exist
+            {
+                let model_copy = ask(model, out, "copy");
+                let impl_copy = match cold.copy(&Path::from(loc.as_str()), &Path::from("zz-x/m")).await {
+                    Ok(()) => "ok".to_string(),
+                    Err(e) => classify(&e).to_string(),
+                };
+                let mut gone = vec!["meta/zz-x/m".to_string(), "data/zz-x/m".to_string()];
+                gone.extend(backend_keys_with_prefix(w, "gen/zz-x/m").await);
+                for k in gone {
+                    w.raw_delete(&k).await;
+                }
+                out.model_compared += 1;
+                out.hit("tie:tampered-metadata-copy");
+                if model_copy != impl_copy {
+                    out.disagree(&format!("copy(`{loc}` -> fresh key) over a tampered document (`{line}`), strict={}", w.strict), &model_copy, &impl_copy);
+                }
+            }
             // listing: the entry of this key (compat mode skips undecodable documents, strict mode fails)
             if undo.len() == 1 {
                 let m = ask(model, out, "list");
